@@ -5,19 +5,22 @@
  * the native replay then runs the REAL belt_fmt.c on the solver's input. */
 #include <bee2/crypto/belt.h>
 unsigned vp_pre_calls = 0;
+/* bit set = that \pre line was violated by the caller (asserted by the harness after its witness:
+ * an assertion placed here would cut the path for the later properties) */
+unsigned vp_pre_violated = 0;
 size_t beltFMT_keep(u32 mod, size_t count)
 {
 	++vp_pre_calls;
-	__CPROVER_assert(2 <= mod && mod <= 65536, "VP_PROP beltFMT_keep called within its precondition 2 <= mod <= 65536");
-	__CPROVER_assert(2 <= count && count <= 600, "VP_PROP beltFMT_keep called within its precondition 2 <= count <= 600");
+	if (!(2 <= mod && mod <= 65536)) vp_pre_violated |= 1;
+	if (!(2 <= count && count <= 600)) vp_pre_violated |= 2;
 	return 256;
 }
 void beltFMTStart(void* state, u32 mod, size_t count, const octet key[], size_t len)
 {
 	++vp_pre_calls;
-	__CPROVER_assert(2 <= mod && mod <= 65536, "VP_PROP beltFMTStart called within its precondition 2 <= mod <= 65536");
-	__CPROVER_assert(2 <= count && count <= 600, "VP_PROP beltFMTStart called within its precondition 2 <= count <= 600");
-	__CPROVER_assert(len == 16 || len == 24 || len == 32, "VP_PROP beltFMTStart called within its precondition on len");
+	if (!(2 <= mod && mod <= 65536)) vp_pre_violated |= 1;
+	if (!(2 <= count && count <= 600)) vp_pre_violated |= 2;
+	if (!(len == 16 || len == 24 || len == 32)) vp_pre_violated |= 4;
 }
 void beltFMTStepE(u16 buf[], const octet iv[16], void* state) { ++vp_pre_calls; }
 void beltFMTStepD(u16 buf[], const octet iv[16], void* state) { ++vp_pre_calls; }
